@@ -225,3 +225,16 @@ func init() {
 		mutant{Name: "uninitialised-variables-are-no-dependencies", Prop: "C15", File: "interp/cfg.go", Old: "\t\t\tcase sym.kind == varSym && sym.node != nil && sym.node != nod:\n\t\t\t\tdeps = append(deps, sym.node)\n", New: "\t\t\tcase sym.kind == varSym && sym.node != nil && sym.node != nod:\n\t\t\t\tif sym.node.kind != valueSpec {\n\t\t\t\t\tdeps = append(deps, sym.node)\n\t\t\t\t}\n", Rule: "R15.14", Key: "getVarDependencies/variable-case#1/every-variable-is-a-dependency"},
 	)
 }
+
+func init() {
+	addMutants(
+		// round-6 seeds on C16-C19
+		mutant{Name: "directory-listings-remembered-by-path", Prop: "C16", File: "interp/src.go", Old: "\tfiles, err := fs.ReadDir(interp.opt.filesystem, dir)\n\tif err != nil {\n\t\treturn \"\", err\n\t}\n", New: "\tfiles, found := listings[dir]\n\tif !found {\n\t\tif files, err = fs.ReadDir(interp.opt.filesystem, dir); err != nil {\n\t\t\treturn \"\", err\n\t\t}\n\t\tlistings[dir] = files\n\t}\n", Also: [][3]string{{"interp/src.go", "const vendor = \"vendor\"\n", "const vendor = \"vendor\"\n\nvar listings = map[string][]fs.DirEntry{}\n"}}, Rule: "R16.8", Key: "package/no-process-wide-memo-table"},
+		mutant{Name: "vendor-walk-stops-below-the-hosting-directory", Prop: "C16", File: "interp/src.go", Old: "\t\t\tparent = filepath.Dir(parent)\n\t\t\tif parent == prefix {\n", New: "\t\t\tparent = filepath.Dir(parent)\n\t\t\tif parent == prefix || filepath.Dir(parent) == prefix {\n", Rule: "R16.5", Key: "previousRoot/stop-at-the-source-root#3"},
+		mutant{Name: "constraint-line-verdicts-remembered", Prop: "C17", File: "interp/build.go", Old: "\t\t\tif !buildLineOk(ctx, line) {\n\t\t\t\treturn false, nil\n\t\t\t}\n", New: "\t\t\tok, found := interp.pkgNames[line]\n\t\t\tif !found {\n\t\t\t\tok = \"no\"\n\t\t\t\tif buildLineOk(ctx, line) {\n\t\t\t\t\tok = \"yes\"\n\t\t\t\t}\n\t\t\t\tinterp.pkgNames[line] = ok\n\t\t\t}\n\t\t\tif ok == \"no\" {\n\t\t\t\treturn false, nil\n\t\t\t}\n", Rule: "R17.14", Key: "Interpreter.buildOk/remembers-nothing"},
+		mutant{Name: "basic-types-spelled-by-their-name", Prop: "C18", File: "extract/extract.go", Old: "\t\t\t\t\t\tresults[j] = v.Name() + \" \" + types.TypeString(v.Type(), qualify)\n", New: "\t\t\t\t\t\tif b, ok := v.Type().(*types.Basic); ok {\n\t\t\t\t\t\t\tresults[j] = v.Name() + \" \" + b.Name()\n\t\t\t\t\t\t\tcontinue\n\t\t\t\t\t\t}\n\t\t\t\t\t\tresults[j] = v.Name() + \" \" + types.TypeString(v.Type(), qualify)\n", Rule: "R18.10", Key: "extract/types-spelled-by-the-qualified-writer"},
+		mutant{Name: "constant-literals-remembered-between-extractions", Prop: "C18", File: "extract/extract.go", Old: "\timports[\"go/constant\"] = true\n\timports[\"go/token\"] = true\n\n", New: "\timports[\"go/constant\"] = true\n\timports[\"go/token\"] = true\n\tseenConst[str] = tok\n\n", Also: [][3]string{{"extract/extract.go", "var restricted = map[string]bool{\n", "var seenConst = map[string]string{}\n\nvar restricted = map[string]bool{\n"}}, Rule: "R18.11", Key: "extract/no-state-between-extractions"},
+		mutant{Name: "exec-nodes-remembered-by-code-address", Prop: "C19", File: "interp/run.go", Old: "\texecAddr := reflect.ValueOf(exec).Pointer()\n", New: "\texecAddr := reflect.ValueOf(exec).Pointer()\n\tif m := n.interp.generic[fmt.Sprint(execAddr)]; m != nil {\n\t\treturn m\n\t}\n\tif m := execNodes[execAddr]; m != nil {\n\t\treturn m\n\t}\n", Also: [][3]string{{"interp/run.go", "func originalExecNode(", "var execNodes = map[uintptr]*node{}\n\nfunc originalExecNode("}}, Rule: "R19.11", Key: "package/no-table-keyed-by-a-code-address"},
+		mutant{Name: "frame-debug-data-dropped-when-the-call-exits", Prop: "C19", File: "interp/debugger.go", Old: "\t\tdbg.exitGoRoutine(f.debug.g)\n\t\tdbg.events(&DebugEvent{dbg, DebugExitGoRoutine, f})\n\t}\n", New: "\t\tdbg.exitGoRoutine(f.debug.g)\n\t\tdbg.events(&DebugEvent{dbg, DebugExitGoRoutine, f})\n\t}\n\tif f.debug.kind != frameRoot {\n\t\tf.debug = nil\n\t}\n", Rule: "R19.12", Key: "package/frame-debug-data-never-dropped"},
+	)
+}
